@@ -160,8 +160,8 @@ PROPS = {
                  "empty-claimed positions disappear; unknown-position / non-positive-change calls and every error are no-ops. Model tied to the Go code by byte-exact differential run.",
  },
  "C08": {
-  "modules": ["OsmoVerif.Props.C08", "OsmoVerif.Props.C08Inc", "OsmoVerif.Props.C08IncHist"],
-  "min_theorems": 90,
+  "modules": ["OsmoVerif.Props.C08", "OsmoVerif.Props.C08Inc", "OsmoVerif.Props.C08IncHist", "OsmoVerif.Props.TieGenCL", "OsmoVerif.Props.TieGenCLOps"],
+  "min_theorems": 161,
   "fingerprints": ["CL.Keeper_*", "CL.SwapState_*"],
   "engines": [{"name": "clmath", "kind": "pure", "n": {"quick": 30000, "thorough": 400000}, "shards": {"quick": 2, "thorough": 16}},
               {"name": "cl", "kind": "app", "n": {"quick": 1500, "thorough": 20000}, "shards": {"quick": 4, "thorough": 16}, "env": NO_EXPORT_IMPORT}],
@@ -274,8 +274,8 @@ PROPS = {
                  "decreases); CL shares never reach an account; failed op is a no-op; model tied to the real msg server/keeper by differential run",
  },
  "C03": {
-  "modules": ["OsmoVerif.Props.C03", "OsmoVerif.Props.C03Limit", "OsmoVerif.Props.C03Dust", "OsmoVerif.Props.C03Ideal"],
-  "min_theorems": 101,
+  "modules": ["OsmoVerif.Props.C03", "OsmoVerif.Props.C03Limit", "OsmoVerif.Props.C03Dust", "OsmoVerif.Props.C03Ideal", "OsmoVerif.Props.TieGenCL", "OsmoVerif.Props.TieGenCLOps"],
+  "min_theorems": 172,
   "fingerprints": ["CL.*"],
   "engines": [{"name": "clmath", "kind": "pure", "n": {"quick": 40000, "thorough": 500000}, "shards": {"quick": 4, "thorough": 16}},
               {"name": "cl", "kind": "app", "n": {"quick": 1500, "thorough": 20000}, "shards": {"quick": 4, "thorough": 16}, "env": NO_EXPORT_IMPORT}],
@@ -316,8 +316,8 @@ PROPS = {
                  "(inside the contract), exact per-hop accounting of trader / pool / taker-fee collector, third parties untouched",
  },
  "C07": {
-  "modules": ["OsmoVerif.Props.C07"],
-  "min_theorems": 19,
+  "modules": ["OsmoVerif.Props.C07", "OsmoVerif.Props.TieGenCL", "OsmoVerif.Props.TieGenCLOps"],
+  "min_theorems": 90,
   "fingerprints": ["CL.*"],
   "engines": [{"name": "cl", "kind": "app", "n": {"quick": 2000, "thorough": 30000}, "shards": {"quick": 4, "thorough": 16}, "env": NO_EXPORT_IMPORT}],
   "rule": "histories on one concentrated pool through the real keeper (create over overlapping/nested/abutting/gapped ranges incl. exactly on the current tick and at the range "
@@ -592,8 +592,8 @@ PROPS = {
                  "invariants, remaining history; probes for the audited order-dependent sites.",
  },
  "C01": {
-  "modules": ["OsmoVerif.Props.C01", "OsmoVerif.Props.C08IncHist"],
-  "min_theorems": 60,
+  "modules": ["OsmoVerif.Props.C01", "OsmoVerif.Props.C08IncHist", "OsmoVerif.Props.TieGenCL", "OsmoVerif.Props.TieGenCLOps"],
+  "min_theorems": 131,
   "fingerprints": ["CL.*"],
   "engines": [{"name": "cl", "kind": "app", "n": {"quick": 2000, "thorough": 30000}, "shards": {"quick": 4, "thorough": 16}, "env": NO_EXPORT_IMPORT},
               {"name": "clmath", "kind": "pure", "n": {"quick": 20000, "thorough": 300000}, "shards": {"quick": 2, "thorough": 16}}],
